@@ -2,6 +2,8 @@ package main
 
 import (
 	"fmt"
+	"go/ast"
+	"go/token"
 	"go/types"
 	"sort"
 	"strings"
@@ -17,6 +19,7 @@ func init() {
 			"D1 purity — for every read-only operation of both sketch variants, every Store implementation, every IndexMapping implementation and the statistics object, the observable write set rooted at the inspected object is empty; the only writes that remain when nothing is factored out are those of the paginated store's sort routine (buffer elements) and compaction routine (its own representation fields), which are themselves checked to write nothing else. The argument of every MergeWith and the receiver of ChangeMapping have the same obligation. "+
 			"D2 copy independence — for every Copy (5 stores, 2 sketches, statistics): everything reachable from the result was allocated during the call (deep origin analysis through slices of slices, maps and nested copies), except the index mapping, which is shared and is proven immutable (no store to a field of any mapping struct outside a freshly allocated object); every field of the struct is defined by the copy; the dynamic type of the result is the receiver's. "+
 			"D3 ChangeMapping: nothing reachable from the result originates in the receiver except through Copy()/the immutable mapping; the stores of the result are the caller-supplied ones. "+
+			"D5 no package-level state — no exported function or method of the module (the reflection plumbing of the protoc-generated message file excepted) writes, directly or through anything it calls, memory reachable from a package-level variable: a reused builder, a scratch buffer or a 'last result' cache would make one sketch's answers depend on other sketches' operations, on overlapping calls and on re-entrant writers. "+
 			"NOT DECIDED: that sorting and compaction preserve the represented index→count map (value statement; the one trusted assumption of this check).",
 		"one obligation per (read-only operation × implementation), per Copy × (origin, each field, dynamic type), per mapping-field store; non-trivial = the write set / origin set had to be computed through at least one call",
 		true, runC14)
@@ -44,6 +47,7 @@ func runC14(c *Ctx) {
 	// being the argument of a merge: not written, and no reference into it is kept by the receiver (a kept
 	// reference lets later operations on the receiver alter the argument's answers)
 	c02ArgUntouched(c, a, "C14-D4")
+	c14NoPackageState(c, "C14-D5")
 }
 
 // checkNoObservableWrite: the observable write set of f rooted at parameter idx is empty.
@@ -653,4 +657,69 @@ func c14SortFlag(c *Ctx, pr *paginatedRoles) {
 		}
 	}
 	c.R.floor(rule, "methods writing the buffer (sorted-flag maintenance)", n, 2)
+}
+
+// c14NoPackageState: no exported function or method of the module writes (directly or through anything it calls)
+// memory reachable from a package-level variable. Package-level state is shared by every sketch in the process:
+// a call that leaves something there (a reused builder, a scratch buffer, a "last result" cache) makes the result
+// of one operation depend on other objects' operations — on calls that overlap in time, on re-entrant writers and
+// on the history of unrelated sketches. Initialisation (package init and what only it calls) is exempt.
+func c14NoPackageState(c *Ctx, rule string) {
+	n := 0
+	for _, f := range c.P.Funcs {
+		if !inModule(f) || f.Synthetic != "" || f.Parent() != nil || !ast.IsExported(f.Name()) || len(f.Blocks) == 0 {
+			continue
+		}
+		if r := f.Signature.Recv(); r != nil {
+			if nt := recvNamed(f); nt == nil || !nt.Obj().Exported() {
+				continue
+			}
+		}
+		if protocGenerated(c.P, f.Pos()) {
+			continue // reflection plumbing of the generated messages: lazily initialised descriptors behind sync.Once
+		}
+		n++
+		var gs []string
+		for l := range c.Mod.Mods[f] {
+			if strings.HasPrefix(locRoot(l), "g:") {
+				gs = append(gs, l)
+			}
+		}
+		sort.Strings(gs)
+		o := &Obligation{Rule: rule, Key: helperKey(f) + "/no-package-state", Func: shortFn(f), Pos: c.fpos(f), Expected: "writes nothing reachable from a package-level variable", Found: "none", Status: OK}
+		if len(gs) > 0 {
+			o.Status = Violation
+			o.Found = "writes " + strings.Join(gs, ", ")
+		}
+		if len(c.Mod.Mods[f]) == 0 {
+			o.Trivial = true
+		}
+		c.R.add(o)
+	}
+	c.R.floor(rule, "exported functions and methods checked for package-level state", n, 200)
+}
+
+// protocGenerated: the position lies in a file carrying the standard marker of protoc-gen-go output.
+func protocGenerated(p *Program, pos token.Pos) bool {
+	if !pos.IsValid() {
+		return false
+	}
+	for _, pkg := range p.Pkgs {
+		for _, file := range pkg.Syntax {
+			if file.FileStart <= pos && pos <= file.FileEnd {
+				for _, cg := range file.Comments {
+					if cg.Pos() > file.Package {
+						break
+					}
+					for _, cm := range cg.List {
+						if strings.HasPrefix(cm.Text, "// Code generated by protoc-gen-go.") {
+							return true
+						}
+					}
+				}
+				return false
+			}
+		}
+	}
+	return false
 }
